@@ -569,6 +569,17 @@ Definition conf_set (name : string) (c : conf) (s : st) : res st :=
               let k := if bool_decide (k0 = GUnknown) then GDestination else k0 in
               upsert_ksn destination_kind name
                 (check_gateway_and_update name k (check_gateway_wildcards_and_update name None k s1))
+            | CDefaults false =>
+              (* since /repo 0d0f3e6: an entry written without a Destination over a stored one that has it
+                 undoes what the earlier write recorded, exactly as conf_delete does *)
+              if bool_decide (confs s1 !! ("service-defaults", name) = Some (CDefaults true)) then
+                let k0 := gateway_service_kind name s1 in
+                let k := if bool_decide (k0 = GDestination) then GUnknown else k0 in
+                cleanup_ksn destination_kind name
+                  (check_gateway_and_update name k
+                     (cleanup_gateway_wildcards name true
+                        (check_gateway_wildcards_and_update name None k s1)))
+              else s1
             | _ => s1
             end in
   s3 ← (if vips_on s2 && conf_has_vip c && negb (bool_decide (name = ""))
